@@ -6,6 +6,8 @@ import AslProofs.ThreadEnd
 import Gen.ThreadGen
 import AslModel.ThreadTimed
 import AslProofs.ThreadTimed
+import AslModel.ThreadRounds
+import AslProofs.ThreadRounds
 /-!
 # C13 — Thread start/join, ThreadGroup and parallel_for run every task exactly once
 
@@ -510,5 +512,36 @@ example : (AslModel.Thread.SemT.run (AslModel.Thread.SemT.init 1)
     [.tryWait, .tryWait, .timedWait true, .post, .timedWait false, .wait, .post]).failed = 2 := by decide
 
 end Timed
+
+/-! ## the same threads started and joined again and again (`AslModel/ThreadRounds.lean`) -/
+
+section Rounds
+open AslModel.Thread.Rounds AslProofs.ThreadRounds
+
+/-- **restarted_threads_run_once_per_round.**  `n` threads started and joined in any number of rounds (`ThreadGroup::start(); join();`
+    in a loop), `join()` waiting on the thread itself: in every interleaving no join returns while its thread is still running, and
+    whenever the creator stands between two rounds every body has completed exactly as many runs as there were rounds and every thread
+    is joined; `finished()` is true exactly for the threads that have completed a run (it stays true into the next round). -/
+theorem restarted_threads_run_once_per_round (n : Nat) (r : List Act) (c : Cfg) (hc : c = run (init n false) r) :
+    c.early = false ∧ (∀ i, c.flag i = true ↔ 1 ≤ c.runs i) ∧
+    (c.cpc = CPc.starting 0 → ∀ i, i < n → c.runs i = c.rounds ∧ c.ph i = WPh.idle) := by
+  have h : RInv c := by rw [hc]; exact rinv_run _ r (rinv_init n)
+  have hn : c.n = n := by rw [hc]; exact run_n _ r
+  refine ⟨h.notEarly, h.flagIff, fun h0 i hi => ?_⟩
+  have := ((h.starting 0 h0).2 i (by omega)).2 (Nat.zero_le _)
+  exact ⟨this.2, this.1⟩
+
+/-- **join_by_flag_unsafe.**  A `join()` that returns at once when `finished()` is already true is wrong from the second round on:
+    the flag is still set from the first round, the join returns while the body is running, and the round is counted with the body
+    run only once. -/
+theorem join_by_flag_unsafe :
+    ∃ r : List Act, (run (init 1 true) r).early = true ∧ (run (init 1 true) r).rounds = 2 ∧ (run (init 1 true) r).runs 0 = 1 :=
+  ⟨[Act.creator, Act.creator, Act.worker 0, Act.creator, Act.creator, Act.creator, Act.creator, Act.creator, Act.creator], by decide⟩
+
+/-- non-vacuity (test, labelled as such): three rounds of two threads under the canonical schedule -/
+example : (run (init 2 false) (sched 2 3)).rounds = 3 ∧ (run (init 2 false) (sched 2 3)).runs 1 = 3 ∧
+    (run (init 2 false) (sched 2 3)).cpc = CPc.starting 0 := by decide
+
+end Rounds
 
 end C13
